@@ -40,7 +40,7 @@ def spell(name, kind, off):
     return '%s[%d]' % (base, off)
 
 
-SPELLINGS = [None, 'space-before-bracket', 'comment-with-terms', 'comment-lines', 'blank-inside-brackets'] + ['function-calls:%d' % k for k in range(0, 9, 2)]
+SPELLINGS = [None, 'space-before-bracket', 'comment-with-terms', 'comment-lines', 'blank-inside-brackets'] + ['function-calls:%d' % k for k in range(0, 9, 2)] + ['function-calls-blank:1', 'function-calls-blank:6']
 FUNCTION_NAMES = ['f', 'g1', 'F', 'fn', 'np.f', 'h_', 'np.sub.f2', 'exp', 'Log']  # names of functions are never variables, however short
 
 
@@ -60,7 +60,8 @@ def script_of(prog, spelling=None):
             return t.replace('}', ' }').replace('<', '< ').replace(']', ' ]')
         if spelling and spelling.startswith('function-calls'):
             counter[0] += 1
-            return '%s(%s)' % (helpers[(int(spelling.split(':')[1]) + counter[0]) % len(helpers)], t)
+            # ('-blank': a blank between the name of the function and its bracket, as in `exp (X)`, is still a call)
+            return ('%s (%s)' if spelling.startswith('function-calls-blank') else '%s(%s)') % (helpers[(int(spelling.split(':')[1]) + counter[0]) % len(helpers)], t)
         return t
     lines = ['%s = %s' % (spell(l[0], 'v', l[1]), ' + '.join(rhs_spell(m) for m in rhs)) for l, rhs in prog]
     if spelling == 'comment-with-terms':
@@ -222,7 +223,8 @@ def lhss(names=NAMES, offs=LHS_OFFS):
 
 # spellings that are NOT keywords or function names but are close to one (case, affixes): all are ordinary names
 NAME_SHAPES = ['IS', 'AS', 'IN', 'OR', 'NOT', 'AND', 'IF', 'Else', 'Lambda', 'TRUE', 'true', 'none', 'NONE', 'false', 'is_', 'in2', '_or', 'Or', 'E', 'e', 'T', 't_', 'EXP', 'Max', 'MIN',
-               'Log', 'log1', 'np_', 'NP', 'Self', 'notX', 'ifelse', 'For', 'DEL', 'Pass', 'Yield_', 'exp_', 'abs1', 'maxi']
+               'Log', 'log1', 'np_', 'NP', 'Self', 'notX', 'ifelse', 'For', 'DEL', 'Pass', 'Yield_', 'exp_', 'abs1', 'maxi',
+               'type', 'match', 'case', '_', '_beta', '_1']   # (soft keywords are ordinary names; names that begin with an underscore)
 
 
 def name_shape_programs():
